@@ -239,6 +239,45 @@ def main(tier):
                    "whose covariance with the data forms the right-hand side (the estimation variance is not C(v,v) - lambda' C(data,v) of one block)" % (
                        ", ".join(map(str, ref)), ", ".join(map(str, cur))), key="C01b|%s" % fkey_of(f))
     chk.floor("C01b", nb, 1)
+    # C01g: what the public getters report is the system that was solved.  KrigingSystem keeps two storages for each of its
+    # matrices (full / compressed for heterotopic neighbourhoods) and a 'mode' pointer to the one in use (`_lhs = &_lhsf` ...):
+    # a public getter that returns one of the two storages by name, without going through the mode pointer, reports a matrix
+    # that was not filled for the other kind of neighbourhood (krigtest showed an all-zero L.H.S. for isotopic data)
+    alts = {}
+    for f in prog.funcs:
+        if f.cls != "KrigingSystem" or f.body is None:
+            continue
+        for x in f.walk():
+            if x["k"] == "Assign" and x.get("op") == "=" and x["c"][0] is not None and x["c"][0]["k"] == "MemberExpr" and x["c"][1] is not None:
+                r = x["c"][1]
+                while r["k"] == "Cast":
+                    r = r["c"][0]
+                if r["k"] == "UnOp" and r.get("op") == "&" and r["c"][0] is not None and r["c"][0]["k"] == "MemberExpr":
+                    alts.setdefault(x["c"][0]["n"], set()).add(r["c"][0]["n"])
+    alts = {p_: m_ for p_, m_ in alts.items() if len(m_) >= 2}
+    owner = {m_: p_ for p_, ms in alts.items() for m_ in ms}
+    ng = 0
+    pub = {m["usr"] for m in prog.classes.get("KrigingSystem", {}).get("methods", []) if m.get("access") == "public"}
+    for f in sorted(prog.funcs, key=lambda x: (x.file, x.line)):
+        if f.cls != "KrigingSystem" or f.body is None or f.usr not in pub or f.kind != "method":
+            continue
+        for r in f.walk():
+            if r["k"] != "Return" or not r.get("c") or r["c"][0] is None:
+                continue
+            named = {x["n"] for x in walk(r["c"][0]) if x["k"] == "MemberExpr" and x.get("mk") == "field"}
+            hit = sorted(m_ for m_ in named if m_ in owner)
+            through = {p_ for p_ in named if p_ in alts}
+            if not hit and not through:
+                continue
+            ng += 1
+            bad = [m_ for m_ in hit if owner[m_] not in through]
+            chk.analysed(f)
+            chk.ob("C01g", "%s: reports the storage in use (through the mode pointer)" % f.name, f.loc(r), not bad,
+                   detail=None if not bad else "returns `%s` by name; the system that was solved is the one `%s` points to (it is `%s` or `%s` depending on the "
+                   "neighbourhood): for the other kind of neighbourhood the getter reports a matrix that was never filled" % (
+                       bad[0], owner[bad[0]], *sorted(alts[owner[bad[0]]])[:2]), key="C01g|%s" % f.name)
+    chk.extra["mode_pointers"] = {k_: sorted(v_) for k_, v_ in alts.items()}
+    chk.floor("C01g", ng, 3)
     chk.extra["sinks_with_inferred_kind"] = nk
     chk.floor("C01", n, 60)
     chk.floor("C01-kinded", nk, 30)
